@@ -194,6 +194,7 @@ fn run_shard(
             .arg(start_unit.to_string())
             .arg(out_dir)
             .arg(profile)
+            .env("RUST_BACKTRACE", "0")
             .stdout(Stdio::null())
             .stderr(Stdio::from(stderr_file))
             .status();
@@ -257,13 +258,18 @@ fn run_shard(
         } else {
             how.clone()
         };
-        let sig = format!(
-            "{}:{}:died:{}:{}",
-            prop.id,
-            oracle,
-            kind,
-            normalise_digits(stderr_tail.rsplit(" | ").next().unwrap_or(""))
-        );
+        // Signature: how it died plus the most telling line of its stderr.
+        let stderr_all = fs::read_to_string(&stderr_path).unwrap_or_default();
+        let telling = stderr_all
+            .lines()
+            .find(|l| {
+                ["memory allocation of", "stack overflow", "AddressSanitizer", "panicked at", "capacity overflow"]
+                    .iter()
+                    .any(|p| l.contains(p))
+            })
+            .or_else(|| stderr_all.lines().last())
+            .unwrap_or("");
+        let sig = format!("{}:{}:died:{}:{}", prop.id, oracle, kind, normalise_digits(telling.trim()));
         let detail = format!(
             "worker ({profile} build) died with {how} while executing this case; stderr: {stderr_tail}"
         );
